@@ -68,3 +68,10 @@ func VerifC15_UnsafeQueryAfterScenario() { VerifC03_UnsafeQueryAfterScenario() }
 
 // C16 Reset: handles of the old world are dead (pool), observers gone
 func VerifC16_ShrinkAfterReset() { VerifC15_ShrinkAfterReset() }
+
+// C13 first use of a filter while other queries are open (the state a second goroutine finds)
+func VerifC13_NestedFirstUsePlain() { VerifC03_NestedFirstUsePlain() }
+func VerifC13_NestedFirstUseRel()   { VerifC03_NestedFirstUseRel() }
+
+// C01 / C16: whole-table reset after growth
+func VerifC01_TableResetAfterGrowth() { VerifC11_TableResetAfterGrowth() }
